@@ -45,10 +45,14 @@ Open Scope Q_scope.
 Definition sig := nat -> C.
 Definition inj (n : nat) : Q := inject_Z (Z.of_nat n).
 Definition cred (z : C) : C := (Qred (re z), Qred (im z)).
-
-(* sum_{k<n} f k with reduction at each step (execution) *)
+(* sum_{k<n} f k with reduction at each step, skipping exact zeros (execution) *)
+Definition czerob (z : C) : bool :=
+  match Qnum (re z), Qnum (im z) with Z0, Z0 => true | _, _ => false end.
 Fixpoint csumr (f : nat -> C) (n : nat) : C :=
-  match n with O => c0 | S n' => cred (cadd (csumr f n') (f n')) end.
+  match n with
+  | O => c0
+  | S n' => let s := csumr f n' in let t := f n' in if czerob t then s else cred (cadd s t)
+  end.
 
 (* ------------------------------------------------------------------ remove_bias *)
 Definition cmean (x : sig) (N : nat) : C := cscale (1 / inj N) (csumr x N).
